@@ -41,6 +41,16 @@ CHECKS.update({
    ref="5/C09"),
 })
 
+CHECKS.update({
+ "C18": dict(
+   level="model_checking",
+   engine="vcheck-sched",
+   technique="stateless model checking of the real code under a cooperative scheduler: every interleaving of 2-3 goroutines at the synchronisation points (Mutex, Pool, channel, yields inside decode callbacks) up to a preemption bound or unbounded, iterated 0,1,2,...; plus a separate free-running -race pass of the same bodies",
+   text="The files holding the cache protocol and the package-level pools/caches are recompiled from the current tree with sync and the channel operations routed through a scheduler shim; 25 scenarios (same reference, reference chains entered at every point, two types, exclusive decodes with succeeding/failing/nil results, exclusive+plain, mutually referential objects, pairs, pooled zlib readers and writers, predefined CMap and CID mapping caches) are run for every schedule within the bound (unbounded for 2 threads, bound 2 for 3 threads in quick; unbounded in thorough); oracles: identical Go value per (reference,type) for concurrent and later sequential callers, exclusive function runs never overlap and never rerun after success, no deadlock/livelock/panic, decoded bytes correct under a LIFO pool.",
+   note="scheduling points are exactly the sync/channel operations of resource.go, cursor.go, filter.go, font/cmap/predefined.go, font/mapping/mapping.go (unknown constructs stop the build); plain memory accesses are only seen by the free-running race pass (a sample); no weak-memory effects",
+   ref="5/C18, 3.3"),
+})
+
 NOT_YET = {}
 
 def main():
